@@ -222,7 +222,9 @@ class Report:
         self._keycount = {}
 
     def rule(self, rid, desc):
-        self.rules.setdefault(rid, {"desc": desc, "obligations": 0, "violations": 0})
+        r = self.rules.setdefault(rid, {"desc": desc, "obligations": 0, "violations": 0})
+        if not r["desc"]:
+            r["desc"] = desc
 
     def ob(self, rid, ok, fn, what, where="", how="", detail="", nontrivial=True):
         """record one obligation. key = rule|fn|what|ordinal"""
